@@ -20,6 +20,8 @@ type Clause struct {
 
 type LoopSpec struct {
 	Invariants []*Clause
+	Exhaustive bool      // `loop N: exhaustive`: no break is reachable - the loop visits every element of what it ranges over
+	Each       []*Clause // `loop N: each <expr>`: holds at the end of every iteration (an obligation there, never assumed)
 	Decreases  *Clause
 }
 
@@ -268,6 +270,14 @@ func (cs *ContractSet) LoadFile(path, pkgPath string) error {
 					return err
 				}
 				ls.Invariants = append(ls.Invariants, c)
+			case rest == "exhaustive":
+				ls.Exhaustive = true
+			case strings.HasPrefix(rest, "each"):
+				c, err := mkClause(cline{rest: strings.TrimSpace(rest[len("each"):]), line: l.line})
+				if err != nil {
+					return err
+				}
+				ls.Each = append(ls.Each, c)
 			case strings.HasPrefix(rest, "decreases"):
 				c, err := mkClause(cline{rest: strings.TrimSpace(rest[len("decreases"):]), line: l.line})
 				if err != nil {
